@@ -668,15 +668,12 @@ func (e *Exec) atExit(s *State, res []Val) {
 
 func (e *Exec) frameObligations(s *State) {
 	con := e.con
-	if con.ModAll {
-		return
-	}
 	menv := &SpecEnv{e: e, cur: e.entry, old: e.entry, vars: map[string]TV{}, pkg: con.Pkg, bound: map[string]bool{}}
 	for k, v := range e.entryVars {
 		menv.vars[k] = v
 	}
 	ms := e.resolveModifies(con.Modifies, false, menv)
-	if s.epoch != e.entry.epoch {
+	if !con.ModAll && s.epoch != e.entry.epoch {
 		e.obligeK("frame", "havoc-all", con.Tags, s, "false", "an unknown call may modify anything, but the contract does not say 'modifies *'")
 		return
 	}
@@ -684,6 +681,9 @@ func (e *Exec) frameObligations(s *State) {
 	for _, fam := range sortedKeys(s.ver) {
 		if fam == "$alloc" || strings.HasPrefix(fam, "$unbox_") || strings.HasPrefix(fam, "$txn.") || strings.HasPrefix(fam, "$it.") {
 			continue // allocation state, immutable boxes, transaction-local and iterator-local ghost state
+		}
+		if con.ModAll && !storeGhostFam(fam) {
+			continue // 'modifies *' covers the whole heap - but NOT the modelled stores and ghost variables: those are listed
 		}
 		if s.ver[fam] == e.entry.ver[fam] {
 			continue
